@@ -199,11 +199,26 @@ def cond_tokens(body, t):
     return [('if', simple_shape(c))]
 
 
+_FREE = {}
+
+
+def _free_helpers_inlined(body):
+    """private FREE functions of pilota::thrift that a codec method delegates to (a shared `split_checked(trans, n)?`) are
+    spliced in; inherent helper methods are followed by the signature itself (enter / leave tokens)"""
+    if getattr(body, 'crate', None) != 'pilota' or not (body.key.startswith('thrift::') or body.key.startswith('<thrift::')):
+        return body
+    if body.id not in _FREE:
+        import mirlib
+        _FREE[body.id] = mirlib.inline_calls(body, lambda cs, callee: callee.kind == 'Fn' and callee.vis != 'Public' and callee.crate == 'pilota' and (callee.key.startswith('thrift::') or callee.key.startswith('<thrift::')) and not callee.impl_trait)
+    return _FREE[body.id]
+
+
 def signature(body, prog=None, cg=None, inline=1, _depth=0, _seen=None):
     """ordered tokens of a method. inline>0: calls to inherent helper methods of the same type
     (not protocol-trait methods) are expanded in place."""
     toks = []
     _seen = _seen or set()
+    body = _free_helpers_inlined(body)
     for bi in rpo(body):
         bb = body.bbs[bi]
         for st in bb['st']:
@@ -309,7 +324,7 @@ KEEP = ('w', 'r', 'c', 'l', 'x', 'set', 'eff', 'cmp', 'match', 'bit')
 
 def full_sig(body, prog, cg, depth=0, seen=None):
     """signature with every call on self expanded in place (protocol-level ones included)"""
-    body = effective_body(body, cg)
+    body = _free_helpers_inlined(effective_body(body, cg))
     seen = seen or set()
     out = []
     for bi in rpo(body):
